@@ -1072,6 +1072,14 @@ impl Prop for C18 {
             pre.push(Op::Glob(format!("{}/**/*.txt", ROOT)));
             pre.push(Op::Cp(format!("{}/big.dat", dir), format!("{}/copy/big2.dat", dir)));
             pre.push(Op::Size(format!("{}/copy/big2.dat", dir)));
+            // a file of exactly one, two or three 64 KiB blocks, copied and moved (a copier working in blocks must not
+            // lose the last full one)
+            let blocks = 1 + rng.usize(3);
+            pre.push(Op::Write(format!("{}/blk.dat", dir), "0123456789abcdef".repeat(4096 * blocks)));
+            pre.push(Op::Cp(format!("{}/blk.dat", dir), format!("{}/copy/blk2.dat", dir)));
+            pre.push(Op::Size(format!("{}/copy/blk2.dat", dir)));
+            pre.push(Op::Mv(format!("{}/copy/blk2.dat", dir), format!("{}/blk3.dat", dir)));
+            pre.push(Op::Size(format!("{}/blk3.dat", dir)));
             pre.extend(ops.drain(..));
             pre.push(Op::Rm(dir.clone(), true));
             ops = pre;
